@@ -179,7 +179,16 @@ def install_seams():
 # the world
 
 
-DEFAULT_CFG = {'prs': (1, 2), 'ext': 'sfp', 'reviews': 'ACN', 'target_moves': MAX_TARGET_MOVES, 'prompt_hooks': False}
+DEFAULT_CFG = {
+    'prs': (1, 2), 'ext': 'sfp', 'reviews': 'ACN', 'target_moves': MAX_TARGET_MOVES, 'prompt_hooks': False,
+    'n_ext': 1,  # number of external status contexts already reported (green) on the PRs' initial heads
+    'flip': (0,),  # indices of the external contexts the world may change
+    'knobs': ('push', 'target', 'review', 'label'),  # which other world changes are in the alphabet
+}
+
+
+def ext_name(k):
+    return EXT_CONTEXT if k == 0 else f'ext-{k:02d}'
 
 
 class World:
@@ -193,7 +202,12 @@ class World:
         }
         # sha -> {context: 'success'|'failure'|'pending'} in order of first report.  The external check has
         # already passed on the PRs' initial heads; it is unreported on the shas they can be pushed to.
-        self.statuses = {PR_SHAS[n][0]: {EXT_CONTEXT: 'success'} for n in self.cfg['prs']}
+        self.statuses = {
+            PR_SHAS[n][0]: {ext_name(k): 'success' for k in range(self.cfg['n_ext'])} for n in self.cfg['prs']
+        }
+        # shas whose external statuses changed since the CI last queried the status rollup of a PR with that head:
+        # tells "the CI has not looked yet" (not-notified) from "the CI looked and still got it wrong" (ci-logic)
+        self.unpolled = []
         self.batches = []  # the batch service's table
         self.hooks = []  # undelivered GitHub webhooks, a sorted set of (kind, pr)
         self.callbacks = []  # undelivered batch callbacks (batch ids, FIFO)
@@ -218,11 +232,12 @@ class World:
             {n: dict(p, labels=list(p['labels'])) for n, p in self.prs.items()},
             {sha: dict(d) for sha, d in self.statuses.items()},
             [dict(b) for b in self.batches], list(self.hooks), list(self.callbacks), list(self.merges),
+            list(self.unpolled),
         )
 
     def restore(self, snap):
         (self.target, self.ext_moves, self.last_target_change, self.prs, self.statuses,
-         self.batches, self.hooks, self.callbacks, self.merges) = snap
+         self.batches, self.hooks, self.callbacks, self.merges, self.unpolled) = snap
 
     def canon(self):
         open_heads = set()
@@ -238,6 +253,7 @@ class World:
             tuple((sha, tuple(sorted(d.items()))) for sha, d in sorted(self.statuses.items()) if sha in open_heads),
             tuple((b['id'], tuple(sorted((k, v) for k, v in b['attributes'].items() if k != 'token')), b['state'])
                   for b in self.batches),
+            tuple(u for u in self.unpolled if u in open_heads),
             tuple(self.hooks), len(self.callbacks),  # every callback delivery has the same effect on the CI
             tuple(sorted(self.db['invalidated_batches'])), tuple(sorted(self.db['authorized_shas'])),
             (len(self.merges), (self.merges[-1]['pr'], self.merges[-1]['target_before']) if self.merges else None),
@@ -324,10 +340,13 @@ class World:
         bad = {c: s for c, s in self.statuses.get(head, {}).items() if s != 'success'}
         if bad:
             cached = {k: v.value for k, v in getattr(cpr, 'last_known_github_status', {}).items()} if cpr is not None else {}
-            stale = bool(cached) and all(v == 'success' for v in cached.values())
+            # out of date only if a status changed after the CI last read the rollup of this head; a cache that
+            # is wrong although the CI has read the rollup since the last change is the CI's own doing
+            stale = bool(cached) and all(v == 'success' for v in cached.values()) and head in self.unpolled
             found.append((
                 f'check-not-success/{cause(stale)}',
-                f'PR {n} merged while checks on its head {head} are {bad} (CI cache: {cached})',
+                f'PR {n} merged while checks on its head {head} are {bad} (CI cache: {cached}; '
+                f'{"status changed since the CI last read the rollup" if head in self.unpolled else "the CI has read the rollup since the last status change"})',
             ))
         mine = [b for b in self.batches if b['attributes'].get('test') == '1' and b['attributes'].get('source_sha') == head]
         on_target = [b for b in mine if b['attributes'].get('target_sha') == target]
@@ -423,6 +442,11 @@ class FakeGH:
         n, first, after = int(m.group(1)), int(f.group(1)), int(f.group(2) or 0)
         p = w.prs[n]
         ctxs = list(w.statuses.get(p['head'], {}).items())
+        if after == 0:
+            if p['head'] in w.unpolled:
+                w.unpolled.remove(p['head'])
+        else:
+            w.count('graphql_pages_beyond_first')
         if not ctxs:
             rollup = None
         else:
@@ -690,26 +714,33 @@ class Sys:
         self.wb = g.WatchedBranch(0, g.FQBranch(g.Repo(OWNER, NAME), BRANCH), False, True, [])
         w.ci = self.wb
 
-    WORLD_EVENTS = frozenset(('push', 'target', 'review', 'label', 'ext', 'batch'))
+    WORLD_EVENTS = frozenset(('push', 'target', 'review', 'label', 'ext', 'extk', 'batch'))
 
     # -- events ----------------------------------------------------------------------------
-    def enabled(self):
+    def enabled(self, all_knobs=False):
+        """Events the search may take here.  all_knobs=True ignores the configuration's restriction of the
+        alphabet (root histories may use any event that is possible in the world)."""
         w = self.world
         ev = []
+        knobs = DEFAULT_CFG['knobs'] if all_knobs else w.cfg['knobs']
         for n in w.cfg['prs']:
             p = w.prs[n]
             if p['state'] != 'open':
                 continue
-            ev.append(('push', n))
-            for c, full in REVIEW_CODES.items():
-                if p['review'] != full and c in w.cfg['reviews']:
-                    ev.append(('review', n, c))
-            ev.append(('label', n, 0 if w.dnm_label in p['labels'] else 1))
-            cur = w.statuses.get(p['head'], {}).get(EXT_CONTEXT)
-            for c, full in STATUS_CODES.items():
-                if cur != full and c in w.cfg['ext']:
-                    ev.append(('ext', n, c))
-        if w.ext_moves < w.cfg['target_moves']:
+            if 'push' in knobs:
+                ev.append(('push', n))
+            if 'review' in knobs:
+                for c, full in REVIEW_CODES.items():
+                    if p['review'] != full and c in w.cfg['reviews']:
+                        ev.append(('review', n, c))
+            if 'label' in knobs:
+                ev.append(('label', n, 0 if w.dnm_label in p['labels'] else 1))
+            for k in w.cfg['flip']:
+                cur = w.statuses.get(p['head'], {}).get(ext_name(k))
+                for c, full in STATUS_CODES.items():
+                    if cur != full and c in w.cfg['ext']:
+                        ev.append(('ext', n, c) if k == 0 else ('extk', n, k, c))
+        if 'target' in knobs and w.ext_moves < w.cfg['target_moves']:
             ev.append(('target',))
         for b in w.batches:
             if b['state'] == 'running':
@@ -779,7 +810,7 @@ class Sys:
         w = self.world
         w.violations, w.counters, w.merged_now, w.checkouts = [], {}, [], []
         kind = ev[0]
-        if tuple(ev) not in self.enabled():
+        if tuple(ev) not in self.enabled(all_knobs=True):
             raise HarnessError(f'event {ev} is not enabled here')
         if kind == 'push':
             p = w.prs[ev[1]]
@@ -801,8 +832,11 @@ class Sys:
             else:
                 p['labels'] = [x for x in p['labels'] if x != w.dnm_label]
             w.add_hook('pull_request', ev[1])
-        elif kind == 'ext':
-            w.set_status(w.prs[ev[1]]['head'], EXT_CONTEXT, STATUS_CODES[ev[2]])
+        elif kind in ('ext', 'extk'):
+            sha = w.prs[ev[1]]['head']
+            w.set_status(sha, ext_name(ev[2] if kind == 'extk' else 0), STATUS_CODES[ev[-1]])
+            if sha not in w.unpolled:
+                w.unpolled = sorted(w.unpolled + [sha])
         elif kind == 'batch':
             b = next(b for b in w.batches if b['id'] == ev[1])
             b['state'] = STATUS_CODES[ev[2]]
@@ -913,6 +947,8 @@ def enc(ev):
         return f'l{ev[1]}{ev[2]}'
     if k == 'ext':
         return f'e{ev[1]}{ev[2]}'
+    if k == 'extk':
+        return f'x{ev[1]}.{ev[2]}{ev[3]}'
     if k == 'batch':
         return f'b{ev[1]}{ev[2]}'
     if k == 'hook':
@@ -936,6 +972,9 @@ def dec(tok):
         return ('label', int(rest[0]), int(rest[1]))
     if k == 'e':
         return ('ext', int(rest[:-1]), rest[-1])
+    if k == 'x':
+        a, b = rest[:-1].split('.')
+        return ('extk', int(a), int(b), rest[-1])
     if k == 'b':
         return ('batch', int(rest[:-1]), rest[-1])
     if k == 'h':
